@@ -91,7 +91,8 @@ def check_propagate(ctx, R, modules=ANCHOR_MODULES_C03, note_modules=('streamz.r
                     if not ok and not fn.is_coro:
                         # accumulated into a local list that is returned later (flatten, zip_latest)
                         ok = any(e.kind == 'LADD' and e.b and tag in e.b for e in seg) and \
-                            any(e.kind == 'RETURN' and e.b and tag in e.b for e in evs[i + 1:])
+                            (any(e.kind == 'RETURN' and e.b and tag in e.b for e in evs[i + 1:])
+                             or status == 'loopcut')      # (an unrolling cut of `while True`: the return lies beyond the cut)
                     if not ok:
                         # stored in a field that update() hands to producers (deferred-return slot)
                         slots = [e.a for e in seg if e.kind == 'ST' and e.b and tag in e.b and e.c == 'assign']
@@ -497,8 +498,8 @@ def check_meta_pass(ctx, R, classes, rule='META-PASS'):
         for st, status in paths:
             evs = st.events
             ems = [e for e in evs if e.kind == 'EM' and e.depth == 0]
-            if not ems or is_failure(evs, status):
-                continue
+            if not ems or is_failure(evs, status) or status == 'loopcut':
+                continue            # (a path cut by the unrolling bound of `while True` has not reached its last emission)
             n += 1
             carrying = [e for e in ems if e.x.get('md') is not None]
             last = ems[-1]
